@@ -105,7 +105,7 @@ func c03Spec(maxCost int64, internal bool, costFn bool, keys []int, depth int) *
 		}
 		alpha = append(alpha, Op{K: "del", Key: k}, Op{K: "get", Key: k})
 	}
-	alpha = append(alpha, Op{K: "wait"}, Op{K: "updmax", N: -2})
+	alpha = append(alpha, Op{K: "wait"}, Op{K: "drain"}, Op{K: "updmax", N: -2})
 	spec := &SeqSpec{
 		Cfg:      Cfg{NumCounters: 16, MaxCost: maxCost * scale, BufferItems: 1, SetBuf: 3, InternalCost: internal, CostFn: costFn, MapOrder: "rot"},
 		MaxDepth: depth,
@@ -222,7 +222,7 @@ func c13Spec(sb int, maxCost int64, keys []int, depth int, clear bool) *SeqSpec 
 	for _, k := range keys {
 		alpha = append(alpha, Op{K: "set", Key: k, Cost: 1}, Op{K: "del", Key: k}, Op{K: "setttl", Key: k, Cost: 1, TTL: 1000})
 	}
-	alpha = append(alpha, Op{K: "wait"}, Op{K: "advance", N: 3000}, Op{K: "tick"})
+	alpha = append(alpha, Op{K: "wait"}, Op{K: "drain"}, Op{K: "advance", N: 3000}, Op{K: "tick"})
 	if clear {
 		alpha = append(alpha, Op{K: "clear"})
 	}
@@ -380,7 +380,7 @@ func c17Spec(sb int, maxCost int64, keys []int, depth int, ttl bool) *SeqSpec {
 			alpha = append(alpha, Op{K: "setttl", Key: k, Cost: 1, TTL: 1000})
 		}
 	}
-	alpha = append(alpha, Op{K: "wait"})
+	alpha = append(alpha, Op{K: "wait"}, Op{K: "drain"})
 	if ttl {
 		alpha = append(alpha, Op{K: "advance", N: 3000}, Op{K: "tick"})
 	}
